@@ -333,6 +333,40 @@ _TF_MODULES = ("tinyflux.storages", "tinyflux.database", "tinyflux.point",
 
 _STACK = []  # active (disk, clock) environments, innermost last
 _SLOTS = None  # [(module dict, name, real value or None, key)]
+_CACHES = []  # cache_clear callables of memoised functions in tinyflux
+
+
+def _find_caches():
+    """Process-global memoisation inside the code under test would make a
+    run depend on the runs before it: every cache is emptied per run."""
+    del _CACHES[:]
+    seen = set()
+
+    def look(obj):
+        f = getattr(obj, "__func__", obj)
+        cc = getattr(f, "cache_clear", None)
+        if callable(cc) and id(f) not in seen:
+            seen.add(id(f))
+            _CACHES.append(cc)
+
+    for modname in _TF_MODULES:
+        mod = sys.modules.get(modname)
+        if mod is None:
+            continue
+        for val in list(mod.__dict__.values()):
+            look(val)
+            if isinstance(val, type) and getattr(
+                    val, "__module__", "").startswith("tinyflux"):
+                for v2 in list(vars(val).values()):
+                    look(v2)
+
+
+def clear_caches():
+    for cc in _CACHES:
+        try:
+            cc()
+        except Exception:
+            pass
 
 
 def _discover():
@@ -429,6 +463,9 @@ class Seams:
     def install(self, disk, clock):
         if _SLOTS is None:
             _discover()
+            _find_caches()
+        if not _STACK:
+            clear_caches()
         self.env = (disk, clock)
         _STACK.append(self.env)
         _activate(disk, clock)
